@@ -202,3 +202,142 @@ theorem loft_curves_aux (b1 bL : Basis K) (tol : K) (secs pts : List (Tensor K))
 
 end Interp
 end Splipy
+
+namespace Splipy
+open Finset Tensor
+namespace Interp
+
+section stack3
+variable {K : Type} [Field K]
+
+/-- Entries of `x[:, :, r, :] = pts[r]` for 3-d sections of shape `m1 × m2 × nc`. -/
+theorem stackAxis_entry3 (pts : List (Tensor K)) (m1 m2 nc : ℕ) (hne : pts ≠ [])
+    (hsh : ∀ p ∈ pts, p.shape = [m1, m2, nc]) :
+    (stackAxis pts 2).shape = [m1, m2, pts.length, nc] ∧
+    ∀ a < m1, ∀ b < m2, ∀ r < pts.length, ∀ c < nc,
+      (stackAxis pts 2).entry4 m2 pts.length nc a b r c = (pts.getD r default).entry3 m2 nc a b c := by
+  cases pts with
+  | nil => exact absurd rfl hne
+  | cons p ps =>
+    have hp : p.shape = [m1, m2, nc] := hsh p (by simp)
+    rcases p with ⟨psh, pdat⟩
+    simp only at hp
+    subst hp
+    unfold stackAxis
+    simp only [List.headD_cons]
+    refine ⟨by simp, fun a ha b hb r hr c hc => ?_⟩
+    have hab : a * m2 + b < m1 * m2 := flat2_lt ha hb
+    have hlt := Tensor.flat_lt_c14 hab hr hc
+    unfold Tensor.entry4 Tensor.entry3 Tensor.get
+    simp only [Array.getD_eq_getD_getElem?, Array.getElem?_ofFn]
+    rw [dif_pos (by simpa [Tensor.prod] using hlt)]
+    simp only [List.drop, List.take, Tensor.prod, List.foldl, Nat.one_mul, Option.getD_some,
+      Tensor.decode_inner_c14 hc, Tensor.decode_mid_c14 hr hc, Tensor.decode_outer_c14 hr hc]
+
+end stack3
+
+variable {K : Type} [Field K] [LinearOrder K] [FloorRing K]
+
+/-- Core of the loft theorem for SURFACE sections (volume loft). -/
+theorem loft_surfaces_aux (b1 b2 bL : Basis K) (tol : K) (secs pts : List (Tensor K)) (g1 g2 v : List K)
+    (m1 m2 nc : ℕ) (i1 i2 iL : Mat K) (x cp0 cp : Tensor K)
+    (hm1 : 0 < m1) (hm2 : 0 < m2) (hg1 : g1.length = m1) (hg2 : g2.length = m2)
+    (hn : 0 < secs.length) (hv : v.length = secs.length)
+    (hsecs : ∀ s ∈ secs, s.shape = [m1, m2, nc])
+    (hi1 : invC (colloc b1 tol g1 0) = .ok i1) (hi2 : invC (colloc b2 tol g2 0) = .ok i2)
+    (hiL : invC (colloc bL tol v 0) = .ok iL)
+    (hpts : secs.mapM (fun s => chain [colloc b2 tol g2 0, colloc b1 tol g1 0] s 2) = .ok pts)
+    (hx : x = stackAxis pts 2)
+    (hcp0 : chain [iL, i2, i1] x 3 = .ok cp0)
+    (hcp : throughConstructor cp0 3 = .ok cp) :
+    cp.shape = [m1, m2, secs.length, nc] ∧
+    ∀ i < secs.length, ∀ a < m1, ∀ b < m2, ∀ c < nc,
+      ∑ j ∈ range secs.length, (colloc bL tol v 0).get i j * cp.entry4 m2 secs.length nc a b j c
+        = (secs.getD i default).entry3 m2 nc a b c := by
+  set N1 := colloc b1 tol g1 0 with hN1
+  set N2 := colloc b2 tol g2 0 with hN2
+  set NL := colloc bL tol v 0 with hNL
+  set n := secs.length with hnd
+  have hN1S : N1.size = m1 := by rw [hN1, size_colloc, hg1]
+  have hN2S : N2.size = m2 := by rw [hN2, size_colloc, hg2]
+  have hNLS : NL.size = n := by rw [hNL, size_colloc, hv]
+  obtain ⟨hi1S, _⟩ := invC_shape hi1 (by rw [hN1S]; exact hm1)
+  obtain ⟨hi2S, _⟩ := invC_shape hi2 (by rw [hN2S]; exact hm2)
+  obtain ⟨hiLS, _⟩ := invC_shape hiL (by rw [hNLS]; exact hn)
+  rw [hN1S] at hi1S
+  rw [hN2S] at hi2S
+  rw [hNLS] at hiLS
+  obtain ⟨hplen, hpel⟩ := mapM_ok _ secs pts hpts
+  have hpt : ∀ i < n, (pts.getD i default).shape = [m1, m2, nc] ∧
+      ∀ a < m1, ∀ b < m2, ∀ k < nc, (pts.getD i default).entry3 m2 nc a b k
+        = ∑ a' ∈ range m1, N1.get a a' * ∑ b' ∈ range m2, N2.get b b' * (secs.getD i default).entry3 m2 nc a' b' k := by
+    intro i hi
+    have h1 := hpel i hi default default
+    have hsi : (secs.getD i default).shape = [m1, m2, nc] := by
+      apply hsecs
+      rw [List.getD_eq_getElem?_getD, List.getElem?_eq_getElem hi]
+      exact List.getElem_mem _
+    obtain ⟨_, _, t1, _, t2⟩ := chain2 N2 N1 _ _ hsi h1
+    rw [hN1S, hN2S] at t1 t2
+    exact ⟨t1, t2⟩
+  have hptsne : pts ≠ [] := by
+    intro h0; rw [h0] at hplen; simp at hplen; omega
+  have hpsh : ∀ p ∈ pts, p.shape = [m1, m2, nc] := by
+    intro p hp
+    obtain ⟨i, hi, rfl⟩ := List.getElem_of_mem hp
+    have := (hpt i (by rw [hnd, ← hplen]; exact hi)).1
+    rw [List.getD_eq_getElem?_getD, List.getElem?_eq_getElem hi] at this
+    exact this
+  obtain ⟨hxsh, hxent⟩ := stackAxis_entry3 pts m1 m2 nc hptsne hpsh
+  rw [← hx, hplen] at hxsh hxent
+  obtain ⟨_, _, _, hc0sh, _, hc0ent⟩ := chain3 iL i2 i1 x cp0 hxsh hcp0
+  rw [hi1S, hi2S, hiLS] at hc0sh hc0ent
+  obtain ⟨r, hr, rsh, _, rent⟩ := throughConstructor4 cp0 hc0sh
+  have : r = cp := by rw [hr] at hcp; cases hcp; rfl
+  subst this
+  refine ⟨rsh, fun i hi a ha b hb c hc => ?_⟩
+  have hL1 := left_inv_of_right_inv_c14 m1 (fun p q => N1.get p q) (fun p q => i1.get p q)
+    (fun p hp q hq => by
+      have := invC_entries hi1 p q (by rw [hN1S]; exact hp) (by rw [hN1S]; exact hq)
+      rw [hN1S] at this; exact this)
+  have hL2 := left_inv_of_right_inv_c14 m2 (fun p q => N2.get p q) (fun p q => i2.get p q)
+    (fun p hp q hq => by
+      have := invC_entries hi2 p q (by rw [hN2S]; exact hp) (by rw [hN2S]; exact hq)
+      rw [hN2S] at this; exact this)
+  have hRL : ∀ q < n, ∑ r ∈ range n, NL.get i r * iL.get r q = if i = q then 1 else 0 := by
+    intro q hq
+    have := invC_entries hiL i q (by rw [hNLS]; exact hi) (by rw [hNLS]; exact hq)
+    rw [hNLS] at this; exact this
+  -- move the lofting contraction inside and cancel it
+  have e1 : ∀ j ∈ range n, NL.get i j * r.entry4 m2 n nc a b j c
+      = NL.get i j * ∑ a' ∈ range m1, i1.get a a' * ∑ b' ∈ range m2, i2.get b b' *
+          ∑ k ∈ range n, iL.get j k * x.entry4 m2 n nc a' b' k c := by
+    intro j hj
+    rw [rent a ha b hb j (mem_range.mp hj) c hc, hc0ent a ha b hb j (mem_range.mp hj) c hc]
+  rw [sum_congr rfl e1, sum_swap_c14]
+  have e2 : ∀ a' ∈ range m1, i1.get a a' * ∑ j ∈ range n, NL.get i j * ∑ b' ∈ range m2, i2.get b b' *
+        ∑ k ∈ range n, iL.get j k * x.entry4 m2 n nc a' b' k c
+      = i1.get a a' * ∑ a'' ∈ range m1, N1.get a' a'' *
+          ∑ b' ∈ range m2, i2.get b b' * ∑ b'' ∈ range m2, N2.get b' b'' * (secs.getD i default).entry3 m2 nc a'' b'' c := by
+    intro a' ha'
+    have ha'' := mem_range.mp ha'
+    congr 1
+    rw [sum_swap_c14]
+    have e3 : ∀ b' ∈ range m2, i2.get b b' * ∑ j ∈ range n, NL.get i j * ∑ k ∈ range n, iL.get j k * x.entry4 m2 n nc a' b' k c
+        = i2.get b b' * ∑ a'' ∈ range m1, N1.get a' a'' * ∑ b'' ∈ range m2, N2.get b' b'' *
+            (secs.getD i default).entry3 m2 nc a'' b'' c := by
+      intro b' hb'
+      congr 1
+      rw [sum_cancel_c14 n i hi (fun p q => NL.get p q) (fun p q => iL.get p q)
+        (fun k => x.entry4 m2 n nc a' b' k c) hRL]
+      rw [hxent a' ha'' b' (mem_range.mp hb') i hi c hc, (hpt i hi).2 a' ha'' b' (mem_range.mp hb') c hc]
+    rw [sum_congr rfl e3, sum_swap_c14]
+  rw [sum_congr rfl e2]
+  rw [sum_cancel_c14 m1 a ha (fun p q => i1.get p q) (fun p q => N1.get p q)
+    (fun a'' => ∑ b' ∈ range m2, i2.get b b' * ∑ b'' ∈ range m2, N2.get b' b'' * (secs.getD i default).entry3 m2 nc a'' b'' c)
+    (fun q hq => hL1 a ha q hq)]
+  exact sum_cancel_c14 m2 b hb (fun p q => i2.get p q) (fun p q => N2.get p q)
+    (fun b'' => (secs.getD i default).entry3 m2 nc a b'' c) (fun q hq => hL2 b hb q hq)
+
+end Interp
+end Splipy
